@@ -255,7 +255,16 @@ pub fn cast_shapes_heightfield_shape<D: ?Sized + QueryDispatcher>(
         let ignore_line_i = new_line_i < 0 || new_line_i >= ncells_i as isize;
         let ignore_line_j = new_line_j < 0 || new_line_j >= ncells_j as isize;
 
-        if ignore_line_i && ignore_line_j {
+        // NOTE: a leading line that lies outside of the heightfield does not mean that the shape
+        //       is done with it: the shape may still enter it along the other axis later on. The
+        //       walk can only stop once the whole range of cells has moved past the heightfield
+        //       (on the side the shape is moving towards) along one of the axes.
+        let left_i = (ray.dir.z >= 0.0 && curr_range_i.start >= ncells_i as isize)
+            || (ray.dir.z <= 0.0 && curr_range_i.end <= 0);
+        let left_j = (ray.dir.x >= 0.0 && curr_range_j.start >= ncells_j as isize)
+            || (ray.dir.x <= 0.0 && curr_range_j.end <= 0);
+
+        if left_i || left_j {
             break;
         }
 
